@@ -297,11 +297,6 @@ func (g *gen) sequence(seq int, maxLen int, engine string) {
 	if g.r.Intn(100) < 18 {
 		g.policy = "local"
 	}
-	if g.policy == "local" && engine == "mem" {
-		// the mem engine (radix index) holds one global writer lock per open write batch: the
-		// local deleter's per-type batches dead-lock each other as soon as two types are due
-		engine = "pebble"
-	}
 	g.engine = engine
 	g.emit("NEW", g.policy, engine)
 	past := -(guard + 5*day + int64(g.r.Intn(1900))*day)
